@@ -34,7 +34,7 @@ class C11(BaseCheck):
              'scales.kafka.sink:KafkaTransportSink._ProcessReply')
   REQUIRED_ANCHORS = ANCHORS
   REQUIRED_CLASSES = ('thriftmux', 'kafka', 'adv:duplicate-reply', 'adv:unknown-tag', 'adv:reserved-tag-1',
-                      'adv:tag-0', 'adv:huge-tag', 'adv:bitflip-tag', 'error-frame-replies', 'kafka:timeouts', 'tagpool:exhausted', 'tagpool:get-after-refusal', 'timeout-before-send', 'timeout-after-send', 're-open',
+                      'adv:tag-0', 'adv:huge-tag', 'adv:bitflip-tag', 'error-frame-replies', 'kafka:timeouts', 'tagpool:exhausted', 'tagpool:get-after-refusal', 'direct:bare-messages', 'timeout-before-send', 'timeout-after-send', 're-open',
                       'tag-reuse')
   ASSUMPTIONS = ('a tag counts as answered when the client has read the last byte of any R-frame carrying it '
                  '(known from the simulated socket\'s read offsets)',)
@@ -127,8 +127,9 @@ class C11(BaseCheck):
       self._thriftmux(env, rng, idx, tier, out)
     return out
 
-  def _monitor(self, env, out, conns, frame_events, facts, request_types=(2,)):
-    """Replay the event log: U per connection."""
+  def _monitor(self, env, out, conns, frame_events, facts, request_types=(2,), start=0):
+    """Replay the event log (from index ``start``): U per connection."""
+    events_ = env.events[start:]
     U = {}
     self.answered = []      # (conn, tag, seq) each time an unanswered tag was answered
     self.written = {}       # id(frame event) -> (conn, tag, send seq of its first byte)
@@ -139,12 +140,12 @@ class C11(BaseCheck):
     # FIRST byte (a stalled writer finishes a frame it has begun; the server decodes
     # it later): a reply frame read after that point answers it.
     sends = {}        # conn -> sorted list of (end_offset, seq)
-    for e in env.events:
+    for e in events_:
       if e['kind'] == 'net.send':
         sends.setdefault(e['conn'], []).append((e['start'] + e['n'], e['seq'], e['vt']))
     timeline = []
     wvt_of = {}     # events are kept alive by env.events for the duration of this call
-    for e in env.events:
+    for e in events_:
       k = e['kind']
       if k == frame_events and e.get('type', 2) in request_types:
         wseq, wvt = e['seq'], e['vt']
@@ -241,6 +242,67 @@ class C11(BaseCheck):
         return
       leased.add(t)
 
+  def _direct(self, env, rng, out, classes):
+    """Requests handed straight to the ThriftMux serializer + transport sinks (no dispatcher, no
+    balancer, no timeout sink), so that they arrive without any message property: stalled writer,
+    forged replies for tags that are queued but not yet written, further requests."""
+    import gevent
+    from scales.constants import SinkProperties
+    from scales.loadbalancer.zookeeper import Endpoint
+    from scales.message import MethodCallMessage
+    from scales.sink import ClientMessageSink, ClientMessageSinkStack
+    from scales.thriftmux.sink import SocketTransportSink as MuxTransport, ThriftMuxMessageSerializerSink
+    from vlib import muxcodec as mc, servers
+    from vlib.stackworld import get_net, _PORT
+    from vlib.gen.verifsvc import ExtService
+    net = get_net(env)
+    net.reset()
+    _PORT[0] += 1
+    port = _PORT[0]
+    srv = servers.MuxServer(net, 'dm', port, servers.DefaultPolicy(0.002))
+    tp = MuxTransport.Builder()
+    sp = ThriftMuxMessageSerializerSink.Builder()
+    sp.next_provider = tp
+    top = sp.CreateSink({SinkProperties.Endpoint: Endpoint('dm', port), SinkProperties.Label: 'c11d',
+                         SinkProperties.ServiceInterface: ExtService.Iface})
+    classes.add('direct:bare-messages')
+    try:
+      top.Open().get(timeout=5)
+    except Exception as e:  # noqa
+      out.violate('direct:open-failed', repr(e), {'transport': 'thriftmux-direct'})
+      return
+
+    class Term(ClientMessageSink):
+      def AsyncProcessRequest(self, *a):
+        raise NotImplementedError()
+
+      def AsyncProcessResponse(self, sink_stack, context, stream, msg):
+        pass
+    term = Term()
+    srv.sim.send_delay = lambda conn: rng.choice([0.0, 0.02, 0.05])
+    n = 0
+    for _ in range(rng.choice([6, 15, 30])):
+      for _b in range(rng.randint(1, 4)):
+        msg = MethodCallMessage(ExtService.Iface, 'echo', ('d%d' % n,), {})    # no properties at all
+        st = ClientMessageSinkStack()
+        st.Push(term, None)
+        gevent.spawn(top.AsyncProcessRequest, st, msg, None, {})
+        n += 1
+      env.advance(rng.choice([0.0, 0.001, 0.01]))
+      if rng.random() < 0.6 and srv.sim.conns:
+        conn = srv.sim.conns[-1]
+        seen = [q['tag'] for q in srv.requests if q['conn'] == conn.id]
+        t = max(seen or [1]) + rng.choice([1, 1, 2])       # queued, not written yet (or never issued)
+        conn.write(mc.frame(mc.R_DISPATCH, t, mc.rdispatch_body(mc.ST_ERROR, [], b'early')), 0.0, None, 'adv:%d' % t)
+      env.advance(rng.choice([0.0, 0.005, 0.03]))
+    srv.sim.send_delay = None
+    env.advance(1.0)
+    self._monitor(env, out, None, 'srv.frame', {'transport': 'thriftmux-direct', 'adversarial': ['early-reply']})
+    for bf in srv.bad_frames:
+      out.violate('bad-frame', 'server could not decode client bytes: %r' % (bf,), {'transport': 'thriftmux-direct'})
+    top.Close()
+    env.advance(0.1)
+
   def _thriftmux(self, env, rng, idx, tier, out):
     from scales.message import TimeoutError as ScalesTimeout
     from vlib import muxcodec as mc, servers
@@ -248,6 +310,9 @@ class C11(BaseCheck):
     classes = {'thriftmux'}
     self.route = {}
     self._tagpool_direct(rng, out, classes)
+    if idx % 3 == 0:
+      self._direct(env, rng, out, classes)
+    ev_start = len(env.events)
     adversarial = rng.random() < 0.5
     n_eps = rng.choice([1, 1, 2])
     conc = rng.choice([1, 3, 8, 20, 40])
@@ -332,7 +397,7 @@ class C11(BaseCheck):
         env.advance(rng.choice([0.5, 2.0, 4.0]))
     env.advance(8.0)
     facts = {'transport': 'thriftmux', 'adversarial': sorted(adv_classes)}
-    maxtag, reuse = self._monitor(env, out, None, 'srv.frame', facts)
+    maxtag, reuse = self._monitor(env, out, None, 'srv.frame', facts, start=ev_start)
     if reuse:
       classes.add('tag-reuse')
     # timeouts before / after transmission
